@@ -22,8 +22,24 @@ pub struct DecoStrings {
     pub hdr_tail: String,
     pub quote: String,
     pub ul: String,
-    /// Ordered prefix = number + ol_tail.
+    /// Ordered prefix = number (in `ol_style`) + ol_tail.
     pub ol_tail: String,
+    /// Numbering of ordered items: 0 decimal, 1 lower roman (1..=3999), 2 letters a..z, aa.. ,
+    /// 3 full-width digits, 4 tally marks repeating every five - marker widths need not be
+    /// monotonic in the number.
+    #[serde(default)]
+    pub ol_style: u8,
+}
+
+fn roman(mut n: i64) -> String {
+    let mut out = String::new();
+    for (v, s) in [(1000, "m"), (900, "cm"), (500, "d"), (400, "cd"), (100, "c"), (90, "xc"), (50, "l"), (40, "xl"), (10, "x"), (9, "ix"), (5, "v"), (4, "iv"), (1, "i")] {
+        while n >= v {
+            out.push_str(s);
+            n -= v;
+        }
+    }
+    out
 }
 
 impl DecoStrings {
@@ -41,7 +57,28 @@ impl DecoStrings {
             quote: "> ".into(),
             ul: "* ".into(),
             ol_tail: ". ".into(),
+            ol_style: 0,
         }
+    }
+    /// The marker of ordered item `i`.
+    pub fn ol_marker(&self, i: i64) -> String {
+        let num = match self.ol_style % 5 {
+            1 if (1..=3999).contains(&i) => roman(i),
+            2 if i >= 1 => {
+                let mut n = i;
+                let mut v = vec![];
+                while n > 0 {
+                    n -= 1;
+                    v.push((b'a' + (n % 26) as u8) as char);
+                    n /= 26;
+                }
+                v.iter().rev().collect()
+            }
+            3 => i.to_string().chars().map(|c| if c.is_ascii_digit() { char::from_u32(0xff10 + (c as u32 - '0' as u32)).unwrap() } else { c }).collect(),
+            4 => "|".repeat(i.rem_euclid(5) as usize + 1),
+            _ => i.to_string(),
+        };
+        format!("{}{}", num, self.ol_tail)
     }
     pub fn all_strings(&self) -> Vec<&str> {
         vec![
@@ -144,7 +181,7 @@ impl TextDecorator for CustomDeco {
         self.0.ul.clone()
     }
     fn ordered_item_prefix(&self, i: i64) -> String {
-        format!("{}{}", i, self.0.ol_tail)
+        self.0.ol_marker(i)
     }
     fn make_subblock_decorator(&self) -> Self {
         self.clone()
